@@ -834,9 +834,9 @@ class Translator:
         self.d = astdump.load(self.repo)
         self.classes = self.d["classes"]
         self.syncs = {}
-        for m in self.d["methods"]:
+        for m in self.d["methods_spec"]:
             if m["name"] == "Sync" and m["body"] is not None and "NiStreamReversible" in (m.get("type") or ""):
-                self.syncs.setdefault(m["cls"], m)
+                self.syncs.setdefault(m["spec"], m)
         self.loopctr = 0
         self.transferred = set()         # member locations transferred so far in the class being translated
         self.binds = {}                  # untransferred member -> expression it was assigned (see Walker.stmt)
